@@ -109,3 +109,16 @@ Definition capture_mismatches (cs : list capture_case) : list N :=
 Definition sampler_mismatches (cs : list (N * Z * Z * bool)) : list N :=
   flat_map (fun c => match c with (i, p, r, b) =>
      if Bool.eqb (fixed_sample p r) b then [] else [i] end) cs.
+
+(* ---- stacks: what the innermost handler found (RequestIDKey value, x-request-id
+   metadata values, the three trace keys) and what a traced client called from the
+   handler put on the wire ---- *)
+Definition stack_case := (N * kind * list layer * headers * (option bytes * list bytes * tctx * option thdrs))%type.
+
+Definition stack_mismatches (cs : list stack_case) : list N :=
+  flat_map (fun c => match c with (i, k, ls, h, (orid, omd, octx, ofwd)) =>
+     let s := run_stack k ls {| s_rid := None; s_md := h; s_tctx := empty_ctx |} in
+     let mdok := match k with KHttp => true | _ => eqb_list eqb_bytes (hvals (s_md s) XRID) omd end in
+     if eqb_opt eqb_bytes (s_rid s) orid && mdok && eqb_ctx (s_tctx s) octx &&
+        eqb_opt eqb_thdrs (client_forward (s_tctx s) ([], [])) ofwd
+     then [] else [i] end) cs.
